@@ -1,3 +1,52 @@
-From Ebml Require Import Base Tools Spec Reader.
-Example C05_ex : ebml_size 127 1 = SUnknown /\ ebml_size 127 2 = SKnown 127.
-Proof. vm_compute. split; reflexivity. Qed.
+(* C05 — the iterator is total: no panic, no hang, fused, on arbitrary bytes.  Statements only.
+   Proved: panic freedom, the fused property, how I/O errors enter, recovery only moves forward and fails only with EOF.
+   NOT proved (covered by the correspondence runs under catch_unwind with a call bound): that the model's recursion budget
+   is never exhausted (termination of every loop) and the linear bound on the number of items. *)
+From Ebml Require Import Base Tools Spec Reader Pure Proofs.Tactics Proofs.BytesProofs Proofs.DecodersProofs Proofs.ReaderIO Proofs.Refine Proofs.PureProofs Proofs.NoPanic.
+
+(* no call panics: for every specification whose named parents are masters (what Props/C18.v proves of every derived
+   specification), every configuration (tolerances, buffered set, size limit, EOF closing), every byte stream and every
+   interleaving of next() and try_recover() *)
+Theorem C05_no_panic : forall c input ops, implied_ok (c_sp c) -> wf_bytes input -> Forall no_panic_out (p_run c input ops).
+Proof. exact run_never_panics. Qed.
+
+(* ... and for the buffered machine with any capacity and any chunking of the reads *)
+Theorem C05_no_panic_buffered : forall c cap0 script input ops, implied_ok (c_sp c) -> wf_bytes input -> calm script ->
+  Forall no_panic_out (run_reader c cap0 script input ops).
+Proof. exact buffered_run_never_panics. Qed.
+
+(* the payload decoders never panic, on any slice (empty and oversized payloads included) *)
+Theorem C05_decoders_total : forall a, arr_to_u64 a <> Panic /\ arr_to_i64 a <> Panic /\ arr_to_f64 a <> Panic.
+Proof. exact decoders_total. Qed.
+
+(* fused: with the input exhausted, nothing queued and no master open, next() returns None and leaves that situation unchanged *)
+Theorem C05_fused : forall c st f, b_bytes st = [] -> b_queue st = [] -> b_stack st = [] -> b_fuel st = S f ->
+  snd (p_next c st) = NNone /\ b_bytes (fst (p_next c st)) = [] /\ b_queue (fst (p_next c st)) = [] /\ b_stack (fst (p_next c st)) = [] /\
+  b_fuel (fst (p_next c st)) = S f.
+Proof. exact exhausted_is_fused. Qed.
+
+(* an I/O error of the source enters as a read error carrying its code, from the read that hit it *)
+Theorem C05_io_error_surfaces : forall st code s room, r_script st = Fail code :: s ->
+  snd (private_read st room) = Err (RIo code).
+Proof. intros st code s room H. unfold private_read. rewrite H. reflexivity. Qed.
+
+(* try_recover never moves backwards and fails only by reporting the end of the input *)
+Theorem C05_recover_forward : forall c st, b_off st <= b_off (fst (p_try_recover c st)).
+Proof. exact try_recover_forward. Qed.
+Theorem C05_recover_errors : forall c st e, snd (p_try_recover c st) = Some e -> exists o, e = REof o None None None.
+Proof. exact try_recover_errors. Qed.
+
+Example C05_ex :
+  let sp := [ {| e_id := 129; e_ty := DMaster; e_path := [] |}; {| e_id := 16641; e_ty := DSInt; e_path := [PId 129] |} ] in
+  let c := {| c_sp := sp; c_allow_id := false; c_allow_hier := false; c_allow_over := false; c_max := Some 4000000000; c_buffered := []; c_emit_eof := true |} in
+  implied_ok sp /\
+  (* a zero-length Integer element (the D3 panic), then garbage; recovery; end *)
+  p_run c [129; 255; 65; 1; 128; 7; 7] [RAll; RRecover; RAll; RNext] =
+    [OItem (TStart 129) 0; OItem (TElem 16641 (VI 0)) 2; OErr (REof 5 None None None); ORecErr (REof 7 None None None); OItem (TEnd 129) 0; ONone; ONone].
+Proof.
+  split.
+  - intros id. unfold get_path, find_entry. cbn [e_id e_path].
+    destruct (N.eqb_spec 129 id) as [<-|]; [vm_compute; discriminate|].
+    destruct (N.eqb_spec 16641 id) as [<-|]; vm_compute; discriminate.
+  - vm_compute. reflexivity.
+Qed.
